@@ -1,6 +1,7 @@
 """C17 Planner rollback restores the exact earlier state (pkgcore.resolver.state.plan_state + PigeonHoledSlots).
 
-Generated: histories (JSON op lists) over 6 packages (2 names x slots 0/1), 6 choice points, 5 blockers:
+Generated: histories (JSON op lists) over 8 packages (2 names x slots 0/1, plus two "twins": the same cpv from an
+installed repository, equal to but not identical with a source package - the re-install case), 8 choice points, 5 blockers:
     ["add", p, force] ["replace", p] ["remove", p] ["block", c, b] ["unblock", c] ["hardref", b] ["backref", p]
     ["bt", j]   rollback to the plan position recorded before surviving operation number j mod (n+1)
 driven against a real plan_state the way merge_plan drives it (state.add_op(...).apply(plan), plan.add_blocker,
@@ -15,7 +16,7 @@ vdb exclusions, forced restrictions, plan length), all as multisets of small int
   * an operation that reports a conflict (non-forced add, replace) must leave the snapshot unchanged (replace undoes
     its partial work with an internal rollback);
   * no operation inside the domain may raise.
-Quick: bounded-exhaustive histories of length <=3 (plus a seeded eighth of length 4) over a reduced alphabet + random
+Quick: bounded-exhaustive histories of length <=3 (plus a seeded sixteenth of length 4) over a reduced alphabet + random
 histories; thorough: every history of length <=5.
 
 Dropped w.r.t. DESIGN.md: RuleBasedStateMachine (plain op lists replay without hypothesis and shrink structurally).
@@ -36,7 +37,7 @@ TECHNIQUE = "stateful op histories with rollbacks vs saved snapshots and fresh r
 DESIGN_REF = "DESIGN.md §3 C17"
 LEVEL_TEXT = (
     "Generated-history search: random operation histories (length 3-16) with rollbacks to earlier plan positions, plus "
-    "every history of length <=3 + a seeded eighth of length 4 (quick) / <=5 (thorough) over a reduced alphabet (3 packages, 2 blockers, 23 ops) followed by every rollback; after each "
+    "every history of length <=3 + a seeded sixteenth of length 4 (quick) / <=5 (thorough) over a reduced alphabet (3-4 packages incl. an equal twin, 2 blockers, 23-30 ops) followed by every rollback; after each "
     "rollback the complete planner state is compared with the state recorded at that position and with a fresh replay "
     "of the surviving operations."
 )
@@ -54,9 +55,13 @@ ASSUMPTIONS = [
 ]
 BUDGET = {"quick": 50, "thorough": 900}
 
-PKGS = [("a/x-1", "0"), ("a/x-2", "0"), ("a/x-3", "1"), ("a/y-1", "0"), ("a/y-2", "0"), ("a/y-3", "1")]
+PKGS = [("a/x-1", "0"), ("a/x-2", "0"), ("a/x-3", "1"), ("a/y-1", "0"), ("a/y-2", "0"), ("a/y-3", "1"),
+        # twins: the same cpv from another (installed) repository - equal to, but not identical with, #0 and #4
+        ("a/x-1", "0"), ("a/y-2", "0")]
+TWINS = {6: 0, 0: 6, 7: 4, 4: 7}
 BLOCKERS = ["!a/x", "!<a/x-2", "!a/x:1", "!a/y", "!=a/y-1"]
-SMALL_PKGS = (0, 1, 3)  # exhaustive alphabet
+SMALL_PKGS = (0, 1, 6)  # exhaustive alphabet: two versions of one slot + the installed twin of the first
+SMALL_PKGS_4 = (0, 1, 6, 3)  # lengths <= 4 also get a package of a second name
 SMALL_BLOCKERS = (0, 1)
 
 
@@ -68,7 +73,10 @@ class Universe:
         from pkgcore.test.misc import FakePkg
 
         self.state = state
-        self.pkgs = [FakePkg(cpv, slot=slot) for cpv, slot in PKGS]
+        from pkgcore.test.misc import FakeRepo
+
+        vdb = FakeRepo(repo_id="vdb", livefs=True)
+        self.pkgs = [FakePkg(cpv, slot=slot, **({"repo": vdb} if i >= 6 else {})) for i, (cpv, slot) in enumerate(PKGS)]
         self.blockers = [atom(b) for b in BLOCKERS]
         self.choices = [choice_point(atom(p.key), [p]) for p in self.pkgs]
         self.pidx = {id(p): i for i, p in enumerate(self.pkgs)}
@@ -80,12 +88,15 @@ class Universe:
         return {
             "slot_dict": {k: sorted(pi[id(p)] for p in v) for k, v in sorted(ps.state.slot_dict.items())},
             "limiters": {k: sorted(bi[id(b)] for b in v) for k, v in sorted(ps.state.limiters.items())},
-            "pkg_choices": sorted([pi[id(p)], ci[id(c)]] for p, c in ps.pkg_choices.items()),
+            # pkg_choices / vdb_filter are keyed by package EQUALITY (cpv): compare key -> choice identity by cpv
+            "pkg_choices": sorted([p.cpvstr, ci[id(c)]] for p, c in ps.pkg_choices.items()),
+            # every package sitting in a slot must be bound to a choice point
+            "unbound": sorted(pi[id(p)] for v in ps.state.slot_dict.values() for p in v if p not in ps.pkg_choices),
             "rev_blockers": sorted([ci[id(c)], sorted([bi[id(b)], k] for b, k in l)] for c, l in ps.rev_blockers.items()),
             "blockers_refcnt": sorted([bi[id(b)], n] for b, n in ps.blockers_refcnt.items()),
             # a set on the original tree; counts are kept if it is a counting container
             "vdb_filter": sorted(
-                [pi[id(p)], n] for p, n in (ps.vdb_filter.items() if hasattr(ps.vdb_filter, "items") else ((p, 1) for p in ps.vdb_filter))
+                [p.cpvstr, n] for p, n in (ps.vdb_filter.items() if hasattr(ps.vdb_filter, "items") else ((p, 1) for p in ps.vdb_filter))
             ),
             "forced_restrictions": sorted([bi[id(b)], n] for b, n in ps.forced_restrictions.items()),
             "plan_len": len(ps.plan),
@@ -147,7 +158,7 @@ def apply_op(u, ps, op):
 
 
 def _diff_field(a, b):
-    for k in ("slot_dict", "limiters", "pkg_choices", "rev_blockers", "blockers_refcnt", "vdb_filter", "forced_restrictions", "plan_len"):
+    for k in ("slot_dict", "limiters", "pkg_choices", "unbound", "rev_blockers", "blockers_refcnt", "vdb_filter", "forced_restrictions", "plan_len"):
         if a[k] != b[k]:
             return k
     return None
@@ -174,9 +185,9 @@ def run_history(ctx, u, history, record=True, check_replay=True):
             else:
                 pos, want = surviving[n][1], surviving[n][2]
             undone = surviving[n:]
-            kinds = {o[0][0] for o in undone if not o[3]}
+            kinds = {o[4] for o in undone if not o[3]}
             # refcount >= 2 crossed?
-            multi = any(c >= 2 for _, c in u.snapshot(ps)["blockers_refcnt"]) and any(k in kinds for k in ("block", "unblock", "replace", "remove"))
+            multi = any(c >= 2 for _, c in u.snapshot(ps)["blockers_refcnt"]) and any(k in kinds for k in ("block", "unblock", "replace", "replace-equal-twin", "remove"))
             r = core.guarded(ctx, case, lambda pos=pos: ps.backtrack(pos))
             if core.crashed(r):
                 finish()
@@ -188,7 +199,7 @@ def run_history(ctx, u, history, record=True, check_replay=True):
                     classes.add("rollback-crosses:" + k)
                 if multi:
                     classes.add("rollback-crosses:refcount>=2")
-                if kinds & {"replace", "remove"} or multi:
+                if kinds & {"replace", "replace-equal-twin", "remove"} or multi:
                     nontrivial = True
             got = u.snapshot(ps)
             f = _diff_field(got, want)
@@ -201,7 +212,7 @@ def run_history(ctx, u, history, record=True, check_replay=True):
                 return False
             if check_replay:
                 fresh = u.state.plan_state()
-                for o, _, _, failed in surviving:
+                for o, _, _, failed, _ in surviving:
                     res = apply_op(u, fresh, o)
                     if bool(res) != failed:
                         ctx.violation("rollback:replay-diverged", case, f"step {step}: replaying {o} on a fresh state gives {res!r}")
@@ -222,13 +233,16 @@ def run_history(ctx, u, history, record=True, check_replay=True):
             continue
         before = u.snapshot(ps)
         pos = len(ps.plan)
+        kindname = op[0]
+        if op[0] == "replace" and op[1] in TWINS and _slot_holder(ps, u.pkgs[op[1]]) is u.pkgs[TWINS[op[1]]]:
+            kindname = "replace-equal-twin"  # re-install: old and new compare equal but are different objects
         res = core.guarded(ctx, case, lambda op=op: apply_op(u, ps, op))
         if core.crashed(res):
             finish()
             return False
         executed += 1
         failed = bool(res)
-        classes.add("op:" + op[0] + (":forced" if op[0] == "add" and op[2] else "") + (":conflict" if failed else ""))
+        classes.add("op:" + kindname + (":forced" if op[0] == "add" and op[2] else "") + (":conflict" if failed else ""))
         if failed:
             after = u.snapshot(ps)
             f = _diff_field(after, before)
@@ -239,7 +253,7 @@ def run_history(ctx, u, history, record=True, check_replay=True):
                 )
                 finish()
                 return False
-        surviving.append((op, pos, before, failed))
+        surviving.append((op, pos, before, failed, kindname))
     finish()
     return True
 
@@ -277,9 +291,9 @@ def gen_history(rnd):
     return h
 
 
-def small_alphabet():
+def small_alphabet(pkgs=SMALL_PKGS):
     A = []
-    for p in SMALL_PKGS:
+    for p in pkgs:
         A += [["add", p, False], ["add", p, True], ["replace", p], ["remove", p], ["unblock", p]]
         for b in SMALL_BLOCKERS:
             A.append(["block", p, b])
@@ -290,7 +304,7 @@ def small_alphabet():
 def run_exhaustive(ctx, u, length, shard, nshards):
     """every history of exactly `length` applicable ops over the small alphabet (first op index selects the shard);
     then (1) rollbacks one op at a time down to 0, (2) direct rollbacks to every earlier boundary"""
-    A = small_alphabet()
+    A = small_alphabet(SMALL_PKGS_4 if length <= 4 else SMALL_PKGS)
     full = True
     for idx, first in enumerate(A):
         if idx % nshards != shard:
@@ -323,8 +337,8 @@ def run_exhaustive(ctx, u, length, shard, nshards):
 def plan(tier, seed):
     tasks = []
     if tier == "quick":
-        for i in range(1):  # quick: a seeded eighth of the length-4 space; thorough enumerates all of it
-            tasks.append({"task": "exhaustive", "length": 4, "slice": (seed + 3 * i) % 8, "nslices": 8, "partial": True})
+        for i in range(1):  # quick: a seeded sixteenth of the length-4 space; thorough enumerates all of it
+            tasks.append({"task": "exhaustive", "length": 4, "slice": (seed + 3 * i) % 16, "nslices": 16, "partial": True})
         tasks.append({"task": "exhaustive", "length": 3, "slice": 0, "nslices": 1})
         tasks.append({"task": "exhaustive", "length": 2, "slice": 0, "nslices": 1})
         for i in range(6):
